@@ -82,7 +82,29 @@ def sig_transition_executed_after_done(v: dict) -> bool:
     return False
 
 
+def sig_start_step(v: dict) -> bool:
+    return bool(v.get("steps")) and v["steps"][-1]["op"] == "start"
+
+
+def sig_chain_was_cut(v: dict) -> bool:
+    logs = (v.get("out") or []) + (v.get("async_out") or [])
+    return any(e[0] in ("cut_drain", "cut_raise", "cut_always") for e in logs)
+
+
+def sig_pure_with_recorded_history(v: dict) -> bool:
+    pre = v.get("pre") or {}
+    return any(pre.get("hist", {}).values()) and any(k == "history" for k in v["defn"]["kind"].values())
+
+
+def sig_start_step_with_raised_events(v: dict) -> bool:
+    return sig_start_step(v) and sum(1 for e in (v.get("out") or []) if e[0] == "enq") > 0
+
+
 SIGNATURES: Dict[str, Callable[[dict], bool]] = {
+    "start_step": sig_start_step,
+    "chain_was_cut": sig_chain_was_cut,
+    "pure_with_recorded_history": sig_pure_with_recorded_history,
+    "start_step_with_raised_events": sig_start_step_with_raised_events,
     "transition_executed_after_done": sig_transition_executed_after_done,
     "nested_done_event_stops_bubbling": sig_nested_done_event_stops_bubbling,
     "history_target_inside_parallel_parent": sig_history_target_inside_parallel_parent,
